@@ -929,6 +929,10 @@ func (env *Zlisp) Apply(fun *SexpFunction, args []Sexp) (Sexp, error) {
 		env.restoreControlState(callState)
 		return SexpNull, err
 	}
+	// Run has popped the result; put the interpreter back where the
+	// call found it. (It used to be left with pc == -1, which made
+	// every later evaluation on an idle interpreter return nil at once.)
+	env.restoreControlState(callState)
 	return res, nil
 }
 
